@@ -667,7 +667,7 @@ class Machine:
         while s.nside < len(s.low.side):
             s.assume(s.low.side[s.nside]); s.nside += 1
         return r
-    feas_timeout_ms = 10000
+    feas_timeout_ms = 30000
     def feasible(s, cond):
         """is pc & cond satisfiable?  'unknown' (timeout) counts as feasible: exploring a possibly-infeasible path is sound for
         verification (its obligations are still decided under the full path condition); it is recorded in s.unknown_feas."""
